@@ -114,6 +114,27 @@ def replay_case(case):
     rboth = numpy.linalg.matrix_rank(numpy.hstack([A, Af])) if (A.shape[1] + Af.shape[1]) else 0
     rec.update({"terms": obs_terms, "scoped": scoped, "ncols": int(A.shape[1]), "rank": int(r), "rank_unreduced": int(rf), "rank_joint": int(rboth),
                 "expected_terms": case["clustered"], "expected_scoped": case["scoped"]})
+    # a sibling build (added, the case itself is as it was): some terms carry a literal scale (`2:A`). The model's terms have no scale -
+    # a non-zero multiple of a column spans what the column spans - so the recorded structure must be the one of the unscaled build and
+    # rank / span must hold as measured on the scaled matrices
+    if case["terms"] and not case["cluster"] and (h >> 17) % 2 == 0:
+        first = len(terms) - len(case["terms"])
+        which = [ti for ti in range(len(case["terms"])) if (h >> (19 + ti)) & 1] or [h % len(case["terms"])]
+        sterms = [Term([Factor(str(2 + (h >> (23 + i)) % 2), eval_method="literal")] + list(t.factors)) if (i - first) in which else t for i, t in enumerate(terms)]
+        Fs = Formula(sterms, _ordering="none")
+        srec = {"formula": [str(t) for t in sterms]}
+        try:
+            Xs = model_matrix(Fs, df, output="numpy", ensure_full_rank=True, context={})
+            Xsf = model_matrix(Fs, df, output="numpy", ensure_full_rank=False, context={})
+            As, Asf = numpy.asarray(Xs, dtype=float), numpy.asarray(Xsf, dtype=float)
+            srec.update({"scoped": [[[[back.get(sf.factor.expr, sf.factor.expr), "reduced" if sf.reduced else "full"] for sf in st.factors] for st in x.scoped_terms]
+                                    for x in Xs.model_spec.structure],
+                         "ncols": int(As.shape[1]), "rank": int(numpy.linalg.matrix_rank(As)) if As.shape[1] else 0,
+                         "rank_unreduced": int(numpy.linalg.matrix_rank(Asf)) if Asf.shape[1] else 0,
+                         "rank_joint": int(numpy.linalg.matrix_rank(numpy.hstack([As, Asf]))) if (As.shape[1] + Asf.shape[1]) else 0})
+        except Exception as e:  # noqa
+            srec["exc"] = type(e).__name__ + ": " + str(e)[:120]
+        rec["scaled"] = srec
     return rec
 
 
@@ -160,7 +181,7 @@ def run(ctx: Ctx) -> None:
             rejected[x["id"]] = x["verdict"]
         tf.unlink()
         rf.unlink(missing_ok=True)
-    diag = 0
+    diag = scaled_builds = 0
     for rec in recs:
         ctx.traces += 1
         ctx.evaluations += 1
@@ -188,10 +209,24 @@ def run(ctx: Ctx) -> None:
         if v or not numeric_ok:
             ctx.violation(case, {"why": v or "rank/span (the recorded structure is a valid partition: the columns do not realise it)", "ncols": rec["ncols"], "rank": rec["rank"], "rank_unreduced": rec["rank_unreduced"],
                                  "rank_joint": rec["rank_joint"], "observed_structure": rec["scoped"], "model_structure": rec["expected_scoped"]}, kind="replay")
+        sc = rec.get("scaled")
+        if sc is not None:
+            ctx.traces += 1
+            ctx.evaluations += 1
+            scaled_builds += 1
+            scase = {**case, "formula": sc["formula"]}
+            if "exc" in sc:
+                ctx.violation(scase, {"why": "exception (terms with a literal scale)", "observed": sc["exc"]}, kind="replay")
+            elif sc["scoped"] != rec["scoped"]:
+                ctx.violation(scase, {"why": "a literal scale on a term changed the recorded structure", "observed_structure": sc["scoped"], "structure_without_scale": rec["scoped"]}, kind="replay")
+            elif not (sc["rank"] == sc["ncols"] and sc["rank_joint"] == sc["rank_unreduced"] == sc["rank"]):
+                ctx.violation(scase, {"why": "rank/span with a literal scale on a term", "ncols": sc["ncols"], "rank": sc["rank"], "rank_unreduced": sc["rank_unreduced"],
+                                      "rank_joint": sc["rank_joint"], "observed_structure": sc["scoped"]}, kind="replay")
         cats = [f["e"] for t in rec["terms"] for f in t if f["kind"] == "cat"]
         if len(cats) != len(set(cats)):
             ctx.nontrivial.add(jhash(case))
     ctx.notes["structures_differing_from_greedy_model_but_valid"] = diag
+    ctx.require("replay: sibling builds with a literal scale on some terms", scaled_builds, 200)
     for rec in [r for r in good if r["ncols"] >= 6][:2]:
         ctx.sample({"formula": rec["formula"], "levels": rec["levels"], "structure": rec["scoped"], "ncols": rec["ncols"], "rank": rec["rank"]})
     ctx.exhaustive = not ctx.quick
